@@ -815,7 +815,9 @@ def mk_fn(name, arg):
                 rest = rest.scale(1 / c)
             return res + mk_fn("log", Rat(rest))
         return Rat(Poly.atom(("fn", "log", _intern(arg))))
-    if name in ("floor", "fabs", "exp", "min", "max"):
+    if name in ("floor", "fabs", "exp", "min", "max", "rint", "ceil", "trunc"):
+        if name in ("rint", "ceil", "trunc") and arg.is_const() and arg.const_value().denominator == 1:
+            return Rat(Poly.const(arg.const_value()))
         return Rat(Poly.atom(("fn", name, _intern(arg))))
     raise AlgebraError("unknown function %s" % name)
 
